@@ -35,6 +35,9 @@ func runExtras(e *Engine, o checkOpts) []*extraResult {
 	case "C03", "C04":
 		out = append(out, boundedGoTest(o, "prefix-match", "bounded/prefixmatch_bounded_test.go", ".", "TestGvcBoundedPrefixMatch", 5, 7,
 			"Prefix.Match (contract `nobody`: strings.Split/TrimLeft/Join outside solver reach) against the wording of C03 for every key and prefix over {a,b,/}, delimiter absent, '/' or 'b'; ties the uninterpreted mOK/mCommon/mPart of the listing contracts to 'starts with the prefix' / 'segment up to and including the first delimiter'"))
+	case "C10":
+		out = append(out, boundedGoTest(o, "routebase-opaque-keys", "bounded/routebase_bounded_test.go", ".", "TestGvcBoundedRouteBase", 7, 9,
+			"routeBase splits the URL path into bucket and key without cleaning it: every path over {a,/,.} (which contains '.', '..' and empty segments) addresses exactly the bucket and key of the specification split, so dot segments stay part of the opaque key"))
 	case "C16":
 		out = append(out, boundedGoTest(o, "routebase-split", "bounded/routebase_bounded_test.go", ".", "TestGvcBoundedRouteBase", 7, 9,
 			"slash normalisation in routeBase (strings.Trim + SplitN): bucket/key addressed by every path over {a,/,.} equals the specification and is stable under extra leading/trailing slashes"))
